@@ -66,6 +66,7 @@ class SimEngine:
         self.mode = mode
         self.seed = seed
         self.calls = []
+        self.returned = []
         self._gen = torch.Generator()
         self._gen.manual_seed(int(seed))
 
@@ -79,6 +80,7 @@ class SimEngine:
         else:
             out = torch.randn(*size, dtype=dtype, device=device)
         self.calls.append(out.clone())
+        self.returned.append(out)   # the very tensors handed to the library (a caller may reuse them: common random numbers)
         return out
 
 
